@@ -32,6 +32,18 @@ pub fn check(ctx: &mut Ctx, b: &[u8], what: &str) {
     if b.len() >= 20 && b[0] == 2 && (b'A'..=b'D').contains(&b[1]) && b[2] == 0 && [0, 1, 3].contains(&b[3]) && PWB_BOARDS.iter().any(|(_, m)| m[..] == b[4..10]) && b[18] == 0 && b[19] == 0 {
         ctx.nontrivial_bytes(b);
     }
+    {
+        let m = Misaligned::new(b);
+        let same = match (guard(|| PwbV2Packet::try_from(m.slice())), &l) {
+            (Ok(Ok(a)), Ok(b2)) => format!("{:?}", a) == format!("{:?}", b2),
+            (Ok(Err(_)), Err(_)) => true,
+            _ => false,
+        };
+        if !same {
+            ctx.violation("decoding depends on the alignment of the input slice", what.to_string(), json!({"bytes": hex(b)}));
+            return;
+        }
+    }
     match (&l, &r) {
         (Ok(_), None) => {
             ctx.violation("ill-formed PWB payload accepted", format!("{} len={}", what, b.len()), json!({"bytes": hex(b)}));
